@@ -40,7 +40,11 @@ def solve_all(eng, obs=None, timeout_ms=20000, cvc5_all=False, seed=0):
     for o in pre:
         o.smt_full = o.smt_core = None
     t0 = time.time()
-    res = solve.discharge_obligations(eng, obs, level=0, timeout_ms=timeout_ms, seed=seed, cvc5=("all" if cvc5_all else "unknown"))
+    import os
+
+    budget = float(os.environ.get("PYVC_BUDGET_S", "1500"))
+    deadline = t0 + budget
+    res = solve.discharge_obligations(eng, obs, level=0, timeout_ms=timeout_ms, seed=seed, cvc5=("all" if cvc5_all else "unknown"), deadline=deadline)
     for ob, r in zip(obs, res):
         ob.status, ob.time, ob.backend, ob.model, ob.detail = r["status"], r["time"], r["backend"], r["model"], r.get("reason")
         ob.raw = r
@@ -48,7 +52,7 @@ def solve_all(eng, obs=None, timeout_ms=20000, cvc5_all=False, seed=0):
     # second chance with the inductive sign lemmas (sum of zeros / of non-negatives)
     again = [ob for ob in obs if ob.kind != "cover" and ob.status != "unsat"]
     if again:
-        res2 = solve.discharge_obligations(eng, again, level=1, timeout_ms=timeout_ms, seed=seed, cvc5="unknown")
+        res2 = solve.discharge_obligations(eng, again, level=1, timeout_ms=timeout_ms, seed=seed, cvc5="unknown", deadline=deadline + 0.2 * budget)
         for ob, r in zip(again, res2):
             if r["status"] == "unsat" or ob.status in ("unknown", "error"):
                 first = ob.raw
